@@ -21,43 +21,51 @@ import numpy as np
 from hypothesis import strategies as st
 
 from vp import gen
-from vp.framework import EMG3D_DIR, REPO, VERIF, Violation
+from vp.framework import EMG3D_DIR, VERIF, Violation
 
 RULE = ("Recursive spec of an object graph: dictionaries nested up to depth 4 "
         "holding int/float(NaN,inf)/complex/bool/str(unicode, empty)/None, "
-        "real/complex/int arrays of dimension 0..3 (empty, C/F order, six "
-        "dtypes) and instances of all 12 registered classes (TensorMesh; "
-        "Model: 6 mappings x 4 anisotropy cases x mu_r/eps_r; Field: "
-        "electric/magnetic x frequency/Laplace/None x real/complex; 5 Tx and "
-        "2 Rx classes in all coordinate formats, complex strengths, relative "
-        "receivers; Survey: 1-3 sources, 0-3 receivers, custom keys, several "
-        "data sets with NaN, scalar/array noise floor and relative error, "
-        "explicit standard deviation, name/date/info; Simulation: all seven "
-        "gridding modes, generated gridding/solver/tqdm/layered options, and "
-        "three per-process cached *computed* simulations: fields only, "
-        "+misfit, +gradient).  Each case is one graph x one of "
-        "{h5, npz, json, six convert pairs} (sub-check graph) or one "
-        "Survey/Simulation x format x what through to_file/from_file "
-        "(sub-check tofile).  Equality: same class and recursively equal "
-        "to_dict() contents; arrays equal in shape, dtype and every value "
-        "incl. NaN positions; scalars equal in value and kind "
-        "(bool/int/float/complex/str/None; 0-d arrays unwrapped; numpy "
-        "scalar dtypes compared when both sides are numpy).  Excluded and "
-        "counted (classes excl:*): reserved key tokens '>', '/', '__array', "
-        "'__complex', '__class__'; the string value 'NoneType'; boolean "
-        "arrays.  Not generated: NUL/surrogate characters, ints outside "
-        "int64, non-string keys (documented: keys are cast to str).  "
-        "Non-trivial = graph holds >=1 emg3d instance and >=1 array; distinct "
-        "by (mode, structural digest of the spec).")
+        "real/complex/int arrays of dimension 0..3 (empty, C/F order, seven "
+        "dtypes, NaN/inf sprinkled) and instances of all 12 registered "
+        "classes (TensorMesh; Model: 6 mappings x 4 anisotropy cases x "
+        "mu_r/eps_r, also on a discretize mesh; Field: electric/magnetic x "
+        "frequency/Laplace/None x real/complex; 5 Tx and 2 Rx classes in all "
+        "coordinate formats, complex strengths, relative receivers; Survey: "
+        "1-3 sources, 0-3 receivers, custom keys, several data sets with "
+        "NaN, scalar/array noise floor and relative error, explicit standard "
+        "deviation, name/date/info; Simulation: all seven gridding modes, "
+        "gridding/solver/tqdm/layered options, file_dir, and three "
+        "per-process cached *computed* simulations: fields only, +misfit, "
+        "+gradient).  Each case is one graph x one of {h5, npz, json, six "
+        "convert pairs} x save options (sub-check graph) or one "
+        "Survey/Simulation x format x what x name through to_file/from_file "
+        "(sub-check tofile).  Equality (checker's own, never emg3d's "
+        "allclose __eq__): same class, recursively equal to_dict() contents "
+        "and equal public attributes; arrays equal in shape, dtype and every "
+        "value incl. NaN positions; scalars equal in value and kind "
+        "(bool/int/float/complex/str/None; 0-d numeric arrays unwrapped; "
+        "numpy scalar dtypes compared when both sides are numpy).  A convert "
+        "case compares load(B) with load(A) and attributes a difference to "
+        "format B if load+save by hand shows it too, else to convert.  "
+        "Excluded and counted (classes excl:*): reserved key tokens '>', "
+        "'/', '__array', '__complex', '__class__'; the string value "
+        "'NoneType'; boolean arrays.  Not generated: NUL/surrogate "
+        "characters, ints outside int64, non-string keys (documented: keys "
+        "are cast to str), lists as dictionary values.  Non-trivial = graph "
+        "holds >=1 emg3d instance and >=1 array; distinct by (mode, node "
+        "types in order, set of classes hit).")
 ASSUMPTIONS = [
-    "to_dict() of a class exposes everything that defines the object (the "
-    "oracle compares to_dict() contents, not private attributes)",
+    "to_dict() plus the documented public attributes (checker's table "
+    "public_view) expose everything that defines an object",
     "lists/tuples of numbers inside emg3d objects (gridding options) are "
     "equal to the array numpy.asarray() makes of them",
     "numpy array comparison, tempfile, json, h5py and numpy.load behave as "
-    "documented; emg3d private readers are used for *diagnosis* of the "
+    "documented; emg3d's private readers are used for *diagnosis* of the "
     "signature only, never to decide pass/fail",
-    "sign of zero and NaN payload bits are not compared",
+    "sign of zero and NaN payload bits are not compared; memory layout "
+    "(C/F order) of a loaded array is not content",
+    "the list of known findings is only used to order the differences of "
+    "one case (an unlisted difference is reported before a listed one)",
 ]
 SHARDS = {'quick': 1, 'thorough': 16}
 
@@ -102,7 +110,6 @@ TEXT = st.one_of(
                           blacklist_characters='\x00'), max_size=8),
     st.integers(0, 29).map(lambda k: 'NoneType' if k == 0 else 'text'),
 )
-OPT_TEXT = st.one_of(st.none(), TEXT)
 FLOAT = st.one_of(
     st.floats(allow_nan=True, allow_infinity=True),
     st.floats(-1e3, 1e3),
@@ -121,36 +128,178 @@ ARRAY = st.fixed_dictionaries({
     'special': st.sampled_from(['none', 'none', 'nan', 'inf', 'partial']),
     'seed': SEED,
 })
+
+
+def _w(strategy):
+    """one_of flattens nested one_of's, also through .map (and with them the
+    intended weights); a one-element tuple is opaque to that."""
+    return st.tuples(strategy).map(lambda t: t[0])
+
+
 SCALAR = st.one_of(
-    INT.map(lambda v: {'t': 'int', 'v': v}),
-    FLOAT.map(lambda v: {'t': 'float', 'v': v}),
+    _w(INT).map(lambda v: {'t': 'int', 'v': v}),
+    _w(FLOAT).map(lambda v: {'t': 'float', 'v': v}),
     st.tuples(FLOAT, FLOAT).map(lambda v: {'t': 'complex', 're': v[0],
                                           'im': v[1]}),
     st.booleans().map(lambda v: {'t': 'bool', 'v': v}),
-    TEXT.map(lambda v: {'t': 'str', 'v': v}),
+    _w(TEXT).map(lambda v: {'t': 'str', 'v': v}),
     st.just({'t': 'none'}),
 )
 
+# Heavy objects: only the structural choices are Hypothesis draws, the rest
+# of the (JSON-able) spec is expanded from the drawn seed -- a spec with ~100
+# independent draws overruns Hypothesis' per-example budget and is discarded,
+# which starved the graphs of surveys and simulations.
+KEYPOOL = ['a', 'b', 'data', 'x1', 'key two', 'ü', 'f-1', '0', '_p', 'A.b',
+           'src', 'S-001', 'k_', 'Tx 1', '雪', 'é.1', 'a>b', 'x__array']
+TEXTPOOL = ['', 'héllo', 'x', ' ', 'a\nb', '雪', 'True', '1.5', 'None',
+            'Survey 2026', '2026-09-23', 'line1\nline2 – ünïcode', 'NoneType',
+            'data._noise_floor']
+
+
+def _pick(rng, seq):
+    return seq[int(rng.integers(0, len(seq)))]
+
+
+def _opt_text(rng):
+    return None if rng.random() < 0.4 else _pick(rng, TEXTPOOL)
+
+
+def _lg(rng, lo, hi):
+    return float(10.0**rng.uniform(np.log10(lo), np.log10(hi)))
+
+
+def _x_tx(s):
+    rng = gen.rng_of(s['seed'], 120)
+    k = rng.integers(0, 3)
+    s['strength'] = ([1.0, None] if k == 0 else
+                     [float(rng.uniform(-1e3, 1e3)), None] if k == 1 else
+                     [float(rng.uniform(-1e3, 1e3)),
+                      float(rng.uniform(-1e3, 1e3))])
+    s['length'] = None if rng.random() < 0.3 else _lg(rng, 1e-2, 1e3)
+    s['n'] = int(rng.integers(2, 6))
+    s['container'] = _pick(rng, ['tuple', 'list', 'array'])
+    return s
+
+
+def _x_rx(s):
+    s['container'] = _pick(gen.rng_of(s['seed'], 121),
+                           ['tuple', 'list', 'array'])
+    return s
+
+
+def _x_field(s):
+    rng = gen.rng_of(s['seed'], 122)
+    f = _lg(rng, 1e-3, 1e4)
+    s['freq'] = {'none': None, 'freq': f, 'laplace': -f}[s.pop('dom')]
+    s['cplx'] = bool(rng.random() < 0.5)          # dtype if frequency is None
+    s['data'] = 'none' if rng.random() < 0.25 else 'random'
+    s['dgrid'] = bool(rng.random() < 0.25)
+    return s
+
+
+def _x_model(s):
+    s['dgrid'] = bool(gen.rng_of(s['model']['seed'], 123).random() < 0.25)
+    return s
+
+
+def _x_survey(s):
+    rng = gen.rng_of(s['seed'], 124)
+    custom = s.pop('keys') == 'custom'
+    for k in ('srckeys', 'reckeys', 'freqkeys'):
+        s[k] = ([_pick(rng, KEYPOOL) for _ in range(3)]
+                if custom and rng.random() < 0.7 else None)
+    s['nanfrac'] = _pick(rng, [0.0, 0.3, 1.0])
+    s['extra'] = [[_pick(rng, ['synthetic', 'mydata', 'set 2'] + KEYPOOL),
+                   bool(rng.random() < 0.5)]
+                  for _ in range(int(rng.integers(0, 3)))]
+    for k in ('nf', 're'):
+        s[k] = {'kind': s[k], 'seed': int(rng.integers(0, 2**32))}
+    for k in ('name', 'date', 'info'):
+        s[k] = _opt_text(rng)
+    return s
+
+
+GOPT_KEYS = ['center', 'frequency', 'mapping', 'properties',
+             'min_width_limits', 'stretching', 'lambda_factor', 'max_buffer',
+             'lambda_from_center', 'center_on_edge', 'cell_numbers',
+             'seasurface', 'vector', 'domain', 'distance']
+SOLVER_OPTS = [
+    None, {}, {'plain': True}, {'tol': 1e-5, 'maxit': 10},
+    {'sslsolver': 'bicgstab', 'semicoarsening': True, 'tol': 1e-4},
+    {'tol_gradient': 1e-3}, {'tol': 1e-7, 'tol_gradient': 1e-2, 'verb': -1},
+    {'linerelaxation': False, 'cycle': 'V', 'nu_pre': 1},
+]
+LAYERED_OPTS = [None, {}, {'method': 'midpoint'},
+                {'method': 'prism', 'ellipse': {'factor': 1.5}}]
+
+
+def _x_gopts(rng):
+    g = {}
+    for k in GOPT_KEYS:
+        if rng.random() > 0.25:
+            continue
+        if k == 'center':
+            v = [float(x) for x in rng.uniform(-1e3, 1e3, 3)] + [
+                _pick(rng, ['tuple', 'list', 'array'])]
+        elif k == 'frequency':
+            v = _lg(rng, 1e-2, 1e2)
+        elif k == 'mapping':
+            v = _pick(rng, gen.MAPPINGS)
+        elif k == 'properties':
+            n = _pick(rng, [0, 2, 3, 4, 7])
+            v = ([_lg(rng, 1e-2, 1e2) for _ in range(n)] if n
+                 else _lg(rng, 1e-2, 1e2))
+        elif k == 'min_width_limits':
+            v = (_lg(rng, 1, 1e2) if rng.random() < 0.5
+                 else [_lg(rng, 1, 10), _lg(rng, 10, 100)])
+        elif k == 'stretching':
+            v = [float(rng.uniform(1.0, 1.1)), float(rng.uniform(1.2, 1.6))]
+        elif k == 'lambda_factor':
+            v = float(rng.uniform(0.5, 2.0))
+        elif k == 'max_buffer':
+            v = _lg(rng, 1e3, 1e5)
+        elif k in ('lambda_from_center', 'center_on_edge'):
+            v = bool(rng.random() < 0.5)
+        elif k == 'cell_numbers':
+            v = sorted({int(_pick(rng, [8, 16, 32, 64, 128]))
+                        for _ in range(3)})
+        elif k == 'seasurface':
+            v = float(rng.uniform(0.0, 1e3))
+        elif k == 'vector':
+            v = _pick(rng, ['x', 'xy', 'xyz', 'z', 'yz'])
+        else:
+            v = _pick(rng, ['dict', 'tuple'])
+        g[k] = v
+    return g
+
+
+def _x_sim(s):
+    rng = gen.rng_of(s['seed'], 125)
+    s['gopts'] = _x_gopts(rng)
+    s['grid2'] = dict(s['grid'], seed=int(rng.integers(0, 2**32)),
+                      n=[int(rng.integers(2, 5)) for _ in range(3)])
+    s['solver_opts'] = _pick(rng, SOLVER_OPTS)
+    s['tqdm'] = _pick(rng, ['default', True, False, 'dict'])
+    s['max_workers'] = int(rng.integers(1, 5))
+    s['verb'] = int(_pick(rng, [-1, 0, 1]))
+    s['name'], s['info'] = _opt_text(rng), _opt_text(rng)
+    s['rint'] = _pick(rng, ['cubic', 'linear'])
+    s['layered_opts'] = _pick(rng, LAYERED_OPTS)
+    s['file_dir'] = bool(rng.random() < 1/6)
+    return s
+
+
 GRID = gen.grid_spec([1, 2, 3, 4])
 MESH = st.fixed_dictionaries({'t': st.just('mesh'), 'grid': GRID})
-DGRID = st.sampled_from([False, False, False, True])   # discretize's class
 MODEL = st.fixed_dictionaries({'t': st.just('model'), 'grid': GRID,
-                               'model': gen.model_spec(), 'dgrid': DGRID})
+                               'model': gen.model_spec()}).map(_x_model)
 FIELD = st.fixed_dictionaries({
     't': st.just('field'), 'grid': GRID,
-    'freq': st.one_of(st.none(), gen.lgfloat(1e-3, 1e4),
-                      gen.lgfloat(1e-3, 1e4).map(lambda f: -f)),
+    'dom': st.sampled_from(['none', 'freq', 'laplace']),
     'electric': st.booleans(),
-    'cplx': st.booleans(),            # dtype if frequency is None
-    'data': st.sampled_from(['random', 'random', 'random', 'none']),
-    'seed': SEED, 'dgrid': DGRID,
-})
-STRENGTH = st.one_of(
-    st.just([1.0, None]),
-    st.floats(-1e3, 1e3).map(lambda v: [v, None]),
-    st.tuples(st.floats(-1e3, 1e3), st.floats(-1e3, 1e3)).map(list),
-)
-CONTAINER = st.sampled_from(['tuple', 'list', 'array'])
+    'seed': SEED,
+}).map(_x_field)
 TX = st.fixed_dictionaries({
     't': st.just('tx'),
     'cls': st.sampled_from(['TxElectricPoint', 'TxMagneticPoint',
@@ -158,108 +307,50 @@ TX = st.fixed_dictionaries({
                             'TxMagneticDipole', 'TxMagneticDipole',
                             'TxElectricWire']),
     'fmt': st.sampled_from(['point', 'flat', 'dipole']),
-    'strength': STRENGTH,
-    'length': st.one_of(st.none(), gen.lgfloat(1e-2, 1e3)),
-    'n': st.integers(2, 5),
-    'container': CONTAINER,
     'seed': SEED,
-})
+}).map(_x_tx)
 RX = st.fixed_dictionaries({
     't': st.just('rx'),
     'cls': st.sampled_from(['RxElectricPoint', 'RxMagneticPoint']),
     'relative': st.booleans(),
-    'container': CONTAINER,
     'seed': SEED,
-})
-NOISE = st.fixed_dictionaries({
-    'kind': st.sampled_from(['none', 'scalar', 'scalar', 'src', 'recfreq',
-                             'full']),
-    'seed': SEED,
-})
+}).map(_x_rx)
+NOISE = st.sampled_from(['none', 'scalar', 'scalar', 'src', 'recfreq',
+                         'full'])
 SURVEY = st.fixed_dictionaries({
     't': st.just('survey'),
     'src': st.lists(TX, min_size=1, max_size=3),
     'rec': st.lists(RX, min_size=1, max_size=3),
     'norec': st.sampled_from([False]*6 + [True]),
-    'srckeys': st.one_of(st.none(), st.lists(KEY, min_size=3, max_size=3)),
-    'reckeys': st.one_of(st.none(), st.lists(KEY, min_size=3, max_size=3)),
+    'keys': st.sampled_from(['auto', 'auto', 'custom']),
     'nfreq': st.integers(1, 3),
-    'freqkeys': st.one_of(st.none(), st.lists(KEY, min_size=3, max_size=3)),
     'observed': st.sampled_from(['none', 'array', 'dict', 'dict']),
-    'nanfrac': st.sampled_from([0.0, 0.3, 1.0]),
-    'extra': st.lists(st.tuples(
-        st.one_of(st.sampled_from(['synthetic', 'mydata', 'set 2']), KEY),
-        st.booleans()), max_size=2),
     'std': st.booleans(),
     'nf': NOISE,
     're': NOISE,
-    'name': OPT_TEXT, 'date': OPT_TEXT, 'info': OPT_TEXT,
     'seed': SEED,
-})
-GOPTS = st.fixed_dictionaries({}, optional={
-    'center': st.tuples(st.floats(-1e3, 1e3), st.floats(-1e3, 1e3),
-                        st.floats(-1e3, 1e3), CONTAINER).map(list),
-    'frequency': gen.lgfloat(1e-2, 1e2),
-    'mapping': st.sampled_from(gen.MAPPINGS),
-    'properties': st.one_of(
-        gen.lgfloat(1e-2, 1e2),
-        st.lists(gen.lgfloat(1e-2, 1e2), min_size=2, max_size=4),
-        st.lists(gen.lgfloat(1e-2, 1e2), min_size=7, max_size=7)),
-    'min_width_limits': st.one_of(
-        gen.lgfloat(1, 1e2),
-        st.tuples(gen.lgfloat(1, 10), gen.lgfloat(10, 100)).map(list)),
-    'stretching': st.tuples(st.floats(1.0, 1.1),
-                            st.floats(1.2, 1.6)).map(list),
-    'lambda_factor': st.floats(0.5, 2.0),
-    'max_buffer': gen.lgfloat(1e3, 1e5),
-    'lambda_from_center': st.booleans(),
-    'center_on_edge': st.booleans(),
-    'cell_numbers': st.lists(st.sampled_from([8, 16, 32, 64, 128]),
-                             min_size=1, max_size=4, unique=True),
-    'seasurface': st.floats(0.0, 1e3),
-    'vector': st.sampled_from(['x', 'xy', 'xyz', 'z', 'yz']),
-    'domain': st.sampled_from(['dict', 'tuple']),
-    'distance': st.sampled_from(['dict', 'tuple']),
-})
-SOLVER_OPTS = st.sampled_from([
-    None, {}, {'plain': True}, {'tol': 1e-5, 'maxit': 10},
-    {'sslsolver': 'bicgstab', 'semicoarsening': True, 'tol': 1e-4},
-    {'tol_gradient': 1e-3}, {'tol': 1e-7, 'tol_gradient': 1e-2, 'verb': -1},
-    {'linerelaxation': False, 'cycle': 'V', 'nu_pre': 1},
-])
+}).map(_x_survey)
 SIM = st.fixed_dictionaries({
     't': st.just('sim'),
     'survey': SURVEY, 'grid': GRID, 'model': gen.model_spec(),
     'gridding': st.sampled_from(['same', 'same', 'single', 'frequency',
                                  'source', 'both', 'input', 'dict']),
-    'gopts': GOPTS, 'grid2': GRID,
-    'solver_opts': SOLVER_OPTS,
-    'tqdm': st.sampled_from(['default', True, False, 'dict']),
-    'max_workers': st.integers(1, 4),
-    'verb': st.sampled_from([-1, 0, 1]),
-    'name': OPT_TEXT, 'info': OPT_TEXT,
-    'rint': st.sampled_from(['cubic', 'linear']),
-    'layered': st.integers(0, 4).map(lambda k: k == 0),
-    'layered_opts': st.sampled_from([None, {}, {'method': 'midpoint'},
-                                     {'method': 'prism',
-                                      'ellipse': {'factor': 1.5}}]),
-    'file_dir': st.integers(0, 5).map(lambda k: k == 0),
-})
+    'layered': st.sampled_from([False]*4 + [True]),
+    'seed': SEED,
+}).map(_x_sim)
 SIMC = st.fixed_dictionaries({
     't': st.just('simc'),
     'stage': st.sampled_from(['computed', 'misfit', 'gradient']),
 })
-OBJ = st.one_of(MESH, MODEL, FIELD, TX, RX, SURVEY, SURVEY,
-                st.integers(0, 2).flatmap(
-                    lambda k: SIM if k else SIMC))
-LEAF = st.one_of(SCALAR, SCALAR, ARRAY)
+OBJ = st.one_of(MESH, MODEL, FIELD, TX, RX, SURVEY, SURVEY, SIM, SIMC)
+LEAF = st.one_of(_w(SCALAR), ARRAY)
 
 
 def dict_s(depth, min_size=0):
     """Dictionary node with values of nesting depth <= depth below it."""
-    opts = [LEAF, LEAF, OBJ, OBJ]
+    opts = [_w(LEAF), _w(LEAF), _w(OBJ), _w(OBJ)]
     if depth > 0:
-        opts += [st.deferred(lambda: dict_s(depth-1))]*3
+        opts += [st.deferred(lambda: dict_s(depth-1))]*2
     return st.lists(st.tuples(KEY, st.one_of(*opts)).map(list),
                     min_size=min_size, max_size=4
                     ).map(lambda it: {'t': 'dict', 'items': it})
@@ -441,7 +532,7 @@ def build_survey(s, rec):
         for name, cplx in s['extra']:
             name = _sanitize_key(name, rec)
             if name in ('observed', 'standard_deviation', '_noise_floor',
-                        '_relative_error'):
+                        '_relative_error', 'src', 'rec', 'freq'):
                 continue
             data[name] = cdata(cplx)
             names.append(name)
@@ -1330,7 +1421,6 @@ def case_graph(spec, rec):
 
 def case_tofile(spec, rec):
     """Survey / Simulation through their to_file / from_file methods."""
-    import emg3d
     fmt = spec['fmt']
     tmpdir = tempfile.mkdtemp(prefix='c17_', dir=TMPBASE)
     try:
@@ -1408,6 +1498,6 @@ def run(ctx):
     # message names the path and both values; the thorough tier shrinks).
     shrink = not ctx.quick
     ctx.explore('graph', GRAPH, _skipping(ctx, case_graph, confirmed),
-                ctx.n(900, 2500), max_rounds=30, shrink=shrink)
+                ctx.n(700, 2500), max_rounds=30, shrink=shrink)
     ctx.explore('tofile', TOFILE, _skipping(ctx, case_tofile, confirmed),
-                ctx.n(350, 1000), max_rounds=30, shrink=shrink)
+                ctx.n(300, 1000), max_rounds=30, shrink=shrink)
